@@ -143,6 +143,10 @@ class Index:
                 for k, v in counts.items():
                     self.canon_counts[k] = self.canon_counts.get(k, 0) + v
                 if rel.startswith("src/"):
+                    n_ren = self._restore_reference_names(tree, rel)
+                    if n_ren:
+                        self.canon_counts["renamed parameters read under their reference names"] = \
+                            self.canon_counts.get("renamed parameters read under their reference names", 0) + n_ren
                     n_merged = self._merge_single_caller_helpers(tree)
                     if n_merged:
                         self.canon_counts["single-caller helpers merged"] = self.canon_counts.get("single-caller helpers merged", 0) + n_merged
@@ -151,6 +155,116 @@ class Index:
                     ch._parent = node
             self._mods[rel] = tree
         return self._mods[rel]
+
+    # -- a function whose parameters were merely renamed (same number as on the reference tree, other names) is read under the reference
+    #    names again - signature, body and the keyword arguments of the calls that certainly reach it.  The rules name parameters the way
+    #    the reference tree does; what a maintainer calls them is no property of the code.  (Same names in another order: nothing to do;
+    #    another number of parameters, a moved or new function: left alone.)
+    def _param_renames(self):
+        if getattr(self, "_renames", None) is not None:
+            return self._renames
+        import json
+        path = os.path.join(os.path.dirname(os.path.abspath(__file__)), "ref_signatures.json")
+        try:
+            with open(path, encoding="utf-8") as f:
+                ref = json.load(f)
+        except (OSError, ValueError):
+            ref = {}
+        by_fn, by_callee = {}, {}
+        if ref and os.environ.get("ALLFEDSA_NO_REFNAMES") != "1":
+            from .canon import unique_methods
+            classes = self._class_table()
+            uniq = unique_methods(classes)
+            for rel in self.py_files("src"):
+                if rel not in ref:
+                    continue
+                try:
+                    with open(self.path(rel), encoding="utf-8") as f:
+                        mod = ast.parse(f.read())
+                except (SyntaxError, OSError):
+                    continue
+                defs = []
+                for n in mod.body:
+                    if isinstance(n, ast.FunctionDef):
+                        defs.append((n.name, None, n))
+                    if isinstance(n, ast.ClassDef):
+                        defs.extend((f"{n.name}.{m.name}", n.name, m) for m in n.body if isinstance(m, ast.FunctionDef))
+                for qual, cname, fn in defs:
+                    want = ref[rel].get(qual)
+                    a = fn.args
+                    cur = [x.arg for x in a.args]
+                    if want is None or len(want) != len(cur) or sorted(want) == sorted(cur) or a.vararg or a.kwarg or a.kwonlyargs or a.posonlyargs:
+                        continue
+                    ren = {c: w for c, w in zip(cur, want) if c != w}
+                    # renamed and reordered at once: when the new names clearly resemble the reference names in another order, that order wins
+                    import difflib
+                    cs, ws = [c for c in cur if c not in want], [w for w in want if w not in cur]
+                    if len(cs) == len(ws) and len(cs) > 1:
+                        pairs = sorted(((difflib.SequenceMatcher(None, c, w).ratio(), c, w) for c in cs for w in ws), reverse=True)
+                        match, used_w = {}, set()
+                        for r_, c, w in pairs:
+                            if c not in match and w not in used_w and r_ >= 0.6:
+                                match[c] = w
+                                used_w.add(w)
+                        if len(match) == len(cs) and any(ren.get(c) != w for c, w in match.items()):
+                            ren = match
+                    elif len(cs) != len(ws):
+                        continue
+                    if set(ren.values()) & set(cur):
+                        continue          # a reference name is in use for another parameter: renamed and reordered at once, not decidable here
+                    used = {n.id for n in ast.walk(fn) if isinstance(n, ast.Name)}
+                    if set(ren.values()) & used:
+                        continue          # the reference name now names something else in the body
+                    nested = [n for n in ast.walk(fn) if n is not fn and isinstance(n, (ast.FunctionDef, ast.Lambda))]
+                    rebound = {x.arg for n in nested for x in n.args.args + n.args.kwonlyargs} | {
+                        t.id for n in ast.walk(fn) if isinstance(n, ast.comprehension) for t in ast.walk(n.target) if isinstance(t, ast.Name)}
+                    if set(ren) & rebound:
+                        continue
+                    by_fn[(rel, qual)] = ren
+                    if cname is None:
+                        by_callee[("func", rel, fn.name)] = ren
+                    elif fn.name == "__init__":
+                        if cname in classes:
+                            by_callee[("ctor", cname)] = ren
+                    elif fn.name in uniq:
+                        by_callee[("method", fn.name)] = ren
+        self._renames = (by_fn, by_callee)
+        return self._renames
+
+    def _restore_reference_names(self, tree, rel):
+        by_fn, by_callee = self._param_renames()
+        if not by_fn:
+            return 0
+        n_done = 0
+        defs = []
+        for n in tree.body:
+            if isinstance(n, ast.FunctionDef):
+                defs.append((n.name, n))
+            if isinstance(n, ast.ClassDef):
+                defs.extend((f"{n.name}.{m.name}", m) for m in n.body if isinstance(m, ast.FunctionDef))
+        for qual, fn in defs:
+            ren = by_fn.get((rel, qual))
+            if not ren:
+                continue
+            for x in fn.args.args:
+                x.arg = ren.get(x.arg, x.arg)
+            for n in ast.walk(fn):
+                if isinstance(n, ast.Name) and n.id in ren:
+                    n.id = ren[n.id]
+            n_done += len(ren)
+        for c in ast.walk(tree):
+            if not isinstance(c, ast.Call) or not c.keywords:
+                continue
+            ren = None
+            if isinstance(c.func, ast.Attribute):
+                ren = by_callee.get(("method", c.func.attr))
+            elif isinstance(c.func, ast.Name):
+                ren = by_callee.get(("ctor", c.func.id)) or by_callee.get(("func", rel, c.func.id))
+            if ren:
+                for k in c.keywords:
+                    if k.arg in ren:
+                        k.arg = ren[k.arg]
+        return n_done
 
     # -- a method that exactly one statement of one other method of its class calls, and that no rule addresses by name, is a piece of
     #    that method (what "extract method" produces): it is merged back into its caller and removed from the class
